@@ -71,9 +71,9 @@ Proof. intros Hc. apply sqrt_lt_R0. unfold Rsqr. nra. Qed.
 
 (* ------------------------------------------------------------------ unit vector *)
 (* non-singular geometry: the two vectors are neither coincident nor antipodal, and the implementation's
-   "coincident" threshold (cos > 0 and sin^2 < 1e-28, where it returns a null gradient) is not met *)
+   null-gradient threshold (sin^2 < 1e-28, at coincident and at exactly opposite vectors) is not met *)
 Definition uv_nonsingular (v1 v2 : vec3 (T:=R)) : Prop :=
-  let c := v3dot Rops v1 v2 in -1 < c < 1 /\ (c <= 0 \/ tiny28 Rops <= 1 - c * c).
+  let c := v3dot Rops v1 v2 in -1 < c < 1 /\ tiny28 Rops <= 1 - c * c.
 
 Lemma v3dot_curve_derive (x y z : R -> R) (ex ey ez : R) (v2 : vec3 (T:=R)) :
   is_derive x 0 ex -> is_derive y 0 ey -> is_derive z 0 ez ->
@@ -93,12 +93,8 @@ Lemma uv_grad_nonsingular v1 v2 : uv_nonsingular v1 v2 ->
 Proof.
   intros [Hc Hs]. unfold uv_grad. cbn -[v3dot tiny28 v3scale].
   set (c := v3dot Rops v1 v2) in *.
-  assert (E : (Rltb 0 c && Rltb (1 - c * c) (tiny28 Rops))%bool = false).
-  { destruct Hs as [Hs|Hs].
-    - replace (Rltb 0 c) with false by (symmetry; apply Rltb_false; lra). reflexivity.
-    - replace (Rltb (1 - c * c) (tiny28 Rops)) with false by (symmetry; apply Rltb_false; lra).
-      apply andb_false_r. }
-  rewrite E. reflexivity.
+  replace (Rltb (1 - c * c) (tiny28 Rops)) with false by (symmetry; apply Rltb_false; lra).
+  reflexivity.
 Qed.
 
 (* along EVERY differentiable curve (x,y,z) through v1 = (x 0, y 0, z 0) with velocity e, the derivative of the
